@@ -41,7 +41,7 @@ CHECKS['C05'] = dict(
    ref='DESIGN.md §4 C05')
 CHECKS['C07'] = dict(
    technique='exhaustive enumeration of all field lists up to a length bound over a typed field alphabet x all emit groupings, pack-then-parse on the real interpreter',
-   text='All records of <= 2 fields over a 174-element field alphabet and 3 fields over a 43-element subset (quick) / <= 3 over the full and 4 over a reduced alphabet (thorough), byte-order switches included; each packed three ways (>bitstr, bitstr-append, emit under all 2^(k-1) groupings with output interception) and parsed back: length = sum of widths, values equal (bit-exact floats), remain = 0, output/output-length agree across groupings. Every field kind must occur at every alignment 0..7 (vacuity guard).',
+   text='All records of <= 2 fields over a 259-element field alphabet and 3 fields over a 52-element subset (quick) / <= 3 over the full and 4 over a reduced alphabet (thorough), byte-order switches included; each packed three ways (>bitstr, bitstr-append, emit under all 2^(k-1) groupings with output interception) and parsed back: length = sum of widths, values equal (bit-exact floats), remain = 0, output/output-length agree across groupings. Every field kind must occur at every alignment 0..7 (vacuity guard).',
    note='Records above 4 fields not covered; unsigned 128-bit fields excluded (pinned overflow); NaN payloads not compared.',
    ref='DESIGN.md §4 C07')
 CHECKS['C17'] = dict(
